@@ -449,6 +449,7 @@ func c01History(c *vc.Ctx, n, hist int) {
 			kind string
 			v    voteVariant
 			msg  voteMsg
+			pre  voteMsg // a genuinely voted message in front of msg, in the same transaction (msg is signed for the sequence after it)
 		}
 		var items []item
 		var later []voteVariant
@@ -457,7 +458,7 @@ func c01History(c *vc.Ctx, n, hist int) {
 				later = append(later, v)
 				continue
 			}
-			if v.Expect == control || len(items) >= 10 {
+			if v.Expect == control || len(items) >= 8 {
 				continue
 			}
 			kind := voteKinds[r.Intn(len(voteKinds))]
@@ -469,7 +470,7 @@ func c01History(c *vc.Ctx, n, hist int) {
 					continue
 				}
 			}
-			items = append(items, item{kind, v, msg})
+			items = append(items, item{kind, v, msg, nil})
 		}
 		// directed: a genuine quorum for a processing / fee-bump payload, offered with the withdrawal id or the batch id of
 		// its twin (same address, same amounts: the moved message is valid in everything but the vote)
@@ -479,12 +480,12 @@ func c01History(c *vc.Ctx, n, hist int) {
 			}
 			// and a vote for a batch of block hashes offered with one field of the batch changed: a different field in every
 			// round (first, last, middle hash, one hash fewer, one more), on a batch of three hashes
-			if len(items) < 12 {
+			if len(items) < 11 {
 				want := round % 5
 				for salt := 0; salt < 240; salt++ {
 					if salt%5 == want && salt%3 == 2 && salt%8 < 6 {
 						if msg, ok := c01Build(env, g, "hashes", v, salt); ok {
-							items = append(items, item{"hashes", v, msg})
+							items = append(items, item{"hashes", v, msg, nil})
 							c.Count("hash_batch_votes_with_one_field_changed", 1)
 						}
 						break
@@ -492,22 +493,51 @@ func c01History(c *vc.Ctx, n, hist int) {
 				}
 			}
 			for _, kind := range []string{"replace", "process"} {
-				if len(items) >= 12 {
+				if len(items) >= 11 {
 					break
 				}
 				env.lastField = ""
 				msg, ok := c01Build(env, g, kind, v, 1+3*r.Intn(300))
 				if ok && (strings.HasPrefix(env.lastField, "batch id") || strings.HasPrefix(env.lastField, "withdrawal id")) {
-					items = append(items, item{kind, v, msg})
+					items = append(items, item{kind, v, msg, nil})
 					c.Count("votes_moved_to_a_twin_id_or_batch_"+kind, 1)
 				}
 			}
 			break
 		}
+		q := pickSubset(r, n, world.Threshold(n)-1)
+		genuine := voteVariant{Class: "genuine-exact-threshold", Marks: q, NBytes: bytesFor(q), Signers: append([]int{-1}, q...), Doc: "correct", Sig: "aggregate", Expect: control}
+		gNext := *g
+		gNext.Seq++
+		// directed: one transaction with two voted messages, the first with a genuine quorum, the second (signed for the
+		// sequence that follows) without one - every message needs its own quorum, and the transaction fails as a whole
+		{
+			var cands []voteVariant
+			for _, v := range vars {
+				if v.Expect == mustFail && v.Doc == "correct" && v.Sig != "nil" {
+					cands = append(cands, v)
+				}
+			}
+			sort.Slice(cands, func(i, j int) bool { return cands[i].String() < cands[j].String() })
+			if len(cands) > 0 {
+				fv := cands[(round*7+hist)%len(cands)]
+				fv.Class = "second-message-of-a-transaction:" + fv.Class
+				k2 := []string{"pubkey", "process", "consolidation", "replace", "hashes"}[(round+hist)%5]
+				pre, ok1 := c01Build(env, g, "hashes", genuine, r.Intn(1000))
+				forged, ok2 := c01Build(env, &gNext, k2, fv, r.Intn(1000))
+				if !ok2 {
+					k2 = "pubkey"
+					forged, ok2 = c01Build(env, &gNext, k2, fv, r.Intn(1000))
+				}
+				if ok1 && ok2 {
+					items = append(items, item{k2, fv, forged, pre})
+					c.Count("transactions_with_a_genuine_and_a_forged_vote", 1)
+				}
+			}
+		}
 		// the control: rotate kinds and genuine shapes
 		var ctrls []voteVariant
-		q := pickSubset(r, n, world.Threshold(n)-1)
-		ctrls = append(ctrls, voteVariant{Class: "genuine-exact-threshold", Marks: q, NBytes: bytesFor(q), Signers: append([]int{-1}, q...), Doc: "correct", Sig: "aggregate", Expect: control})
+		ctrls = append(ctrls, genuine)
 		for _, v := range vars {
 			if v.Expect == control {
 				ctrls = append(ctrls, v)
@@ -520,17 +550,34 @@ func c01History(c *vc.Ctx, n, hist int) {
 			ckind = "hashes"
 			cmsg, _ = c01Build(env, g, ckind, cv, r.Intn(1000))
 		}
-		items = append(items, item{ckind, cv, cmsg})
-		// encodings the statement does not rule out: after the control, signed for the sequence that follows it
 		g2 := *g
 		g2.Seq++
+		doubleCtl := false
+		if round%3 == 2 {
+			// the control is a transaction with two genuinely voted messages (sequences s and s+1): shows that the directed
+			// two-message transactions above are not refused for having two messages
+			k2 := "pubkey"
+			if ckind == "pubkey" {
+				k2 = "hashes"
+			}
+			if second, ok := c01Build(env, &g2, k2, genuine, r.Intn(1000)); ok && cmsg != nil {
+				items = append(items, item{k2, cv, second, cmsg})
+				doubleCtl = true
+				g2.Seq++
+				c.Count("controls_with_two_voted_messages", 1)
+			}
+		}
+		if !doubleCtl {
+			items = append(items, item{ckind, cv, cmsg, nil})
+		}
+		// encodings the statement does not rule out: after the control, signed for the sequence that follows it
 		for i, v := range later {
 			if i >= 2 {
 				break
 			}
 			kind := []string{"consolidation", "pubkey"}[r.Intn(2)]
 			if msg, ok := c01Build(env, &g2, kind, v, r.Intn(1000)); ok {
-				items = append(items, item{kind, v, msg})
+				items = append(items, item{kind, v, msg, nil})
 			}
 		}
 
@@ -540,7 +587,11 @@ func c01History(c *vc.Ctx, n, hist int) {
 			return
 		}
 		for i, it := range items {
-			raw, err := w.SignTx(world.TxSpec{Msgs: []sdkMsg{it.msg}, Priv: g.Proposer.Tx, AccNum: num, Seq: seq + uint64(i)})
+			msgs := []sdkMsg{it.msg}
+			if it.pre != nil {
+				msgs = []sdkMsg{it.pre, it.msg}
+			}
+			raw, err := w.SignTx(world.TxSpec{Msgs: msgs, Priv: g.Proposer.Tx, AccNum: num, Seq: seq + uint64(i)})
 			if err != nil {
 				c.Inconclusive("sign: %v", err)
 				return
@@ -584,6 +635,10 @@ func c01History(c *vc.Ctx, n, hist int) {
 				if res.Code == 0 {
 					acceptedControls[it.kind]++
 					c.Count("genuine_quorums_accepted", 1)
+					if it.pre != nil {
+						env.m.accepted(it.pre)
+						c.Count("controls_with_two_voted_messages_accepted", 1)
+					}
 					env.m.accepted(it.msg)
 				} else {
 					c.Count("genuine_quorums_rejected", 1)
@@ -610,7 +665,11 @@ func c01History(c *vc.Ctx, n, hist int) {
 			if blk.Resp.TxResults[i+1].Code != 0 || it.v.Expect == mustFail {
 				continue
 			}
-			raw, err := w.SignTx(world.TxSpec{Msgs: []sdkMsg{it.msg}, Priv: g.Proposer.Tx, AccNum: tnum, Seq: tseq + uint64(k)})
+			msgs := []sdkMsg{it.msg}
+			if it.pre != nil {
+				msgs = []sdkMsg{it.pre, it.msg}
+			}
+			raw, err := w.SignTx(world.TxSpec{Msgs: msgs, Priv: g.Proposer.Tx, AccNum: tnum, Seq: tseq + uint64(k)})
 			if err != nil {
 				c.Inconclusive("sign twin: %v", err)
 				return
